@@ -1,7 +1,7 @@
 use crate::debugger::protocol::ProtocolMessage;
 use crate::diagnostic_emitter::MosResult;
 use crossbeam_channel::{bounded, Receiver, Sender};
-use std::io::{BufRead, BufReader, Write};
+use std::io::{BufRead, BufReader, Read, Write};
 use std::net::{TcpListener, TcpStream};
 use std::{io, thread};
 
@@ -85,9 +85,16 @@ fn read_msg_text(inp: &mut dyn BufRead) -> io::Result<Option<String>> {
         }
     }
     let size: usize = size.ok_or_else(|| invalid_data!("no Content-Length"))?;
+    // Do not allocate what the header announces up front (it may be nonsense): read at most that much
     let mut buf = buf.into_bytes();
-    buf.resize(size, 0);
-    inp.read_exact(&mut buf)?;
+    buf.clear();
+    Read::take(&mut *inp, size as u64).read_to_end(&mut buf)?;
+    if buf.len() != size {
+        return Err(io::Error::new(
+            io::ErrorKind::UnexpectedEof,
+            "connection closed in the middle of a message",
+        ));
+    }
     let buf = String::from_utf8(buf).map_err(invalid_data)?;
     log::debug!("< {}", buf);
     Ok(Some(buf))
